@@ -32,7 +32,9 @@ def run(prop, tier, seed, replay=None):
         "Lenstra's ECM arithmetic (Add_Curve, Mul_Curve, one_Mul_Curve) is an oracle too: executed and certified per call (divisor / failure value), never modelled; "
         "Miller / Lehmann / test_Lehmann are modelled as functions of the base they draw (Model/PrimesMR.lean, theorems for every base in Props/C12MR.lean); "
         "the draw itself (mpz_urandomm on GMP's global state) is not modelled: the harness seeds the library generator and recomputes the base with a GMP state of its own; "
-        "Erathostene (sieve variant) and the text of write() are certified, not modelled (write's loop is compared with the model of set)",
+        "Erathostene (sieve variant) is modelled with unbounded counters (Model/PrimesErat.lean; the C++ counters are int: the model is the code for n + 2*sqrt(n) < 2^31, "
+        "and a read of Ip beyond the array - which needs an interval (i, 2i) without unmarked odd number - is 'unmarked' in the model); "
+        "the text of write() is certified, not modelled (write's loop is compared with the model of set)",
         "Pollard() called directly on n with a prime factor below 100 can recurse without end (n = 4, 25: the rho iteration fails for every start): "
         "factor() never passes such n, the harness calls Pollard only on factor()'s domain",
         "the reference test above 2^20 is Miller-Rabin with the bases 2..37 (deterministic below 3.3e24; that fact is not proved in Lean); "
@@ -47,8 +49,8 @@ def run(prop, tier, seed, replay=None):
         changed = False
     if changed:
         V.note("prime tables re-extracted from %s (they differ from the committed extraction)" % common.REPO)
-    L = flow.lean_stage(V, ["GivaroModel.Props.C12", "GivaroModel.Props.C12MR"], "GivaroModel/Props/C12.lean",
-                        extra_theorem_files=["GivaroModel/Props/C12MR.lean"])
+    L = flow.lean_stage(V, ["GivaroModel.Props.C12", "GivaroModel.Props.C12MR", "GivaroModel.Props.C12Erat"], "GivaroModel/Props/C12.lean",
+                        extra_theorem_files=["GivaroModel/Props/C12MR.lean", "GivaroModel/Props/C12Erat.lean"])
     bins = flow.build_harnesses("h_primes", configs=("S",))
     lines = None
     if replay:
